@@ -148,6 +148,10 @@ FALLBACK = {
     "c17InitFixed": '["NOTHING", "attr_dict"]',
     "c17EvalMergeOrder": '["module", "snippets"]',
     "c17InitMergeOrder": '["names", "fixed"]',
+    # C16: names the per-class closures rebind in their factory's scope (`nonlocal`/`global` statements)
+    "attrsWrapRebinds": "[]",
+    "defineWrapRebinds": "[]",
+    "makeClassDictAliased": "false",
 }
 
 TYPES = {
@@ -164,6 +168,7 @@ TYPES = {
     "c17ReprAffix": "String × String", "c17ReprCallAffix": "String × String",
     "c17ReprFixed": "List String", "c17EqFixed": "List String", "c17HashFixed": "List String",
     "c17InitFixed": "List String", "c17EvalMergeOrder": "List String", "c17InitMergeOrder": "List String",
+    "attrsWrapRebinds": "List String", "defineWrapRebinds": "List String", "makeClassDictAliased": "Bool",
 }
 
 
@@ -355,6 +360,32 @@ def _c17_merge_order(mk: Src, func: str) -> str:
     if not out:
         raise ValueError("no merges found")
     return lean_list([lean_str(x) for x in out])
+def _rebinds(src: Src, factory: str) -> str:
+    """C16: names declared `nonlocal`/`global` in any closure nested in `factory` -- the only way such a
+    closure can rebind a variable of the factory call (or of the module) between applications."""
+    fn = src.func(factory)
+    inner = [n for n in ast.walk(fn) if isinstance(n, (ast.FunctionDef, ast.Lambda)) and n is not fn]
+    if not inner:
+        raise ValueError(f"{factory} has no nested closure")
+    names = []
+    for i in inner:
+        for n in ast.walk(i):
+            if isinstance(n, (ast.Nonlocal, ast.Global)):
+                names += [x for x in n.names if x not in names]
+    return lean_list([lean_str(x) for x in names])
+
+
+def _make_class_dict_aliased(mk: Src) -> str:
+    """C16: does `make_class` bind a working variable to the caller's `attrs` object itself (`x = attrs`)?"""
+    fn = mk.func("make_class")
+    if "attrs" not in [a.arg for a in fn.args.posonlyargs + fn.args.args + fn.args.kwonlyargs]:
+        raise ValueError("make_class has no `attrs` parameter")
+    for n in ast.walk(fn):
+        if isinstance(n, ast.Assign) and isinstance(n.value, ast.Name) and n.value.id == "attrs":
+            return "true"
+        if isinstance(n, (ast.AnnAssign, ast.NamedExpr)) and isinstance(n.value, ast.Name) and n.value.id == "attrs":
+            return "true"
+    return "false"
 
 
 def extract() -> tuple[dict, list]:
@@ -407,6 +438,9 @@ def extract() -> tuple[dict, list]:
     item("c17InitFixed", lambda: _c17_fixed_globs(mk(), "_make_init_script"))
     item("c17EvalMergeOrder", lambda: _c17_merge_order(mk(), "_eval_snippets"))
     item("c17InitMergeOrder", lambda: _c17_merge_order(mk(), "_make_init_script"))
+    item("attrsWrapRebinds", lambda: _rebinds(src("_make.py"), "attrs"))
+    item("defineWrapRebinds", lambda: _rebinds(src("_next_gen.py"), "define"))
+    item("makeClassDictAliased", lambda: _make_class_dict_aliased(src("_make.py")))
     return vals, broken
 
 
